@@ -239,8 +239,8 @@ class ConditionLambdaInspection:
         self.text = text
 
 
-_DECORATOR_RE = re.compile(r"^\s*@[a-zA-Z_]")
-_DEF_CLASS_RE = re.compile(r"^\s*(async\s+def|def |class )")
+_DECORATOR_RE = re.compile(r"^\s*@")
+_DEF_CLASS_RE = re.compile(r"^\s*(async|def|class)\b")
 _COMMENT_ONLY_RE = re.compile(r"^\s*#")
 
 
@@ -280,16 +280,18 @@ def _dedent_decorator_lines(decorator_lines: List[str]) -> str:
 
     try:
         readline = iter(probe_lines).__next__
-        depth_start = None  # type: Optional[int]
+        # Line numbers at which the f-strings enclosing the current token start (f-strings can be nested)
+        fstring_starts = []  # type: List[int]
         for token in tokenize.generate_tokens(readline):
             if token.type == tokenize.STRING and token.end[0] > token.start[0]:
                 in_string.update(range(token.start[0], token.end[0]))
             elif token.type == getattr(tokenize, "FSTRING_START", -1):
-                depth_start = token.start[0]
+                fstring_starts.append(token.start[0])
             elif token.type == getattr(tokenize, "FSTRING_END", -1):
-                if depth_start is not None and token.end[0] > depth_start:
-                    in_string.update(range(depth_start, token.end[0]))
-                depth_start = None
+                if len(fstring_starts) > 0:
+                    fstring_start = fstring_starts.pop()
+                    if len(fstring_starts) == 0 and token.end[0] > fstring_start:
+                        in_string.update(range(fstring_start, token.end[0]))
     except (tokenize.TokenError, IndentationError, SyntaxError, StopIteration):
         # The text might end in the middle of a statement (the candidate end of the decorator is wrong).
         # We go with what we found so far; the parsing decides.
@@ -329,6 +331,12 @@ def _dedent_decorator_lines(decorator_lines: List[str]) -> str:
             for i, line in enumerate(result)
         ]
 
+    # The continuation lines need not share the indentation with the first line (*e.g.*, they are indented with tabs,
+    # or less than the first line, which is legal within parentheses). Only the indentation of the first line
+    # matters to the parser.
+    if len(result) > 0:
+        result[0] = result[0].lstrip()
+
     return "".join(result)
 
 
@@ -352,11 +360,63 @@ def inspect_decorator(
             ).format(lineno, 0, len(lines), filename, "\n".join(lines))
         )
 
-    # Go up till a line starts with a decorator
+    # Go up till a line starts with a decorator.
+    #
+    # A line of the decorator itself can also look like the start of a decorator (*e.g.*, a line of a multi-line
+    # description starting with ``@``, or a continuation line of the condition starting with the matrix multiplication
+    # operator, ``@another_matrix``). Hence we take the first candidate for which the decorator text can be parsed.
+    #
+    # The same holds for the decorator end -- it's either a function definition, a class definition or another
+    # decorator, but a line of the decorator itself can look like one of these.
+    atok = None  # type: Optional[asttokens.asttokens.ASTTokens]
     decorator_lineno = None  # type: Optional[int]
-    for i in range(lineno, -1, -1):
-        if _DECORATOR_RE.match(lines[i]):
-            decorator_lineno = i
+    decorator_end_lineno = None  # type: Optional[int]
+    syntax_error = None  # type: Optional[SyntaxError]
+
+    end_candidates = [
+        i
+        for i in range(lineno + 1, len(lines))
+        if _DECORATOR_RE.match(lines[i]) or _DEF_CLASS_RE.match(lines[i])
+    ]
+
+    for start_candidate in range(lineno, -1, -1):
+        if not _DECORATOR_RE.match(lines[start_candidate]):
+            if decorator_lineno is not None and _DEF_CLASS_RE.match(
+                lines[start_candidate]
+            ):
+                # We left the decorators of the statement for sure; there is no point in searching further.
+                break
+
+            continue
+
+        if decorator_lineno is None:
+            decorator_lineno = start_candidate
+
+        for end_candidate in end_candidates:
+            if decorator_end_lineno is None:
+                decorator_end_lineno = end_candidate
+
+            decorator_lines = lines[start_candidate:end_candidate]
+
+            # We need to dedent the decorator and add a dummy decorate so that we can parse its text as valid
+            # source code.
+            decorator_text = _dedent_decorator_lines(
+                decorator_lines=decorator_lines
+            ) + "def dummy_{}(): pass".format(uuid.uuid4().hex)
+
+            try:
+                atok = asttokens.asttokens.ASTTokens(decorator_text, parse=True)
+            except SyntaxError as err:
+                if syntax_error is None:
+                    syntax_error = err
+
+                continue
+
+            decorator_lineno = start_candidate
+            decorator_end_lineno = end_candidate
+            break
+
+        if atok is not None or len(end_candidates) == 0:
             break
 
     if decorator_lineno is None:
@@ -365,35 +425,6 @@ def inspect_decorator(
                 lineno + 1, filename, lines[lineno]
             )
         )
-
-    # Find the decorator end -- it's either a function definition, a class definition or another decorator.
-    #
-    # A line of the decorator itself can also look like one of these (*e.g.*, a continuation line of the condition
-    # starting with the matrix multiplication operator, ``@another_matrix``). Hence we take the first candidate
-    # for which the decorator text can be parsed.
-    atok = None  # type: Optional[asttokens.asttokens.ASTTokens]
-    decorator_end_lineno = None  # type: Optional[int]
-    syntax_error = None  # type: Optional[SyntaxError]
-    for i in range(lineno + 1, len(lines)):
-        line = lines[i]
-
-        if not _DECORATOR_RE.match(line) and not _DEF_CLASS_RE.match(line):
-            continue
-
-        decorator_end_lineno = i
-        decorator_lines = lines[decorator_lineno:decorator_end_lineno]
-
-        # We need to dedent the decorator and add a dummy decorate so that we can parse its text as valid source code.
-        decorator_text = _dedent_decorator_lines(
-            decorator_lines=decorator_lines
-        ) + "def dummy_{}(): pass".format(uuid.uuid4().hex)
-
-        try:
-            atok = asttokens.asttokens.ASTTokens(decorator_text, parse=True)
-            break
-        except SyntaxError as err:
-            if syntax_error is None:
-                syntax_error = err
 
     if decorator_end_lineno is None:
         raise SyntaxError(
